@@ -237,9 +237,13 @@ def _gen_section(
     bits = 0
     names = FIELD_NAMES if p.weird_names else FIELD_NAMES[:11]
 
+    scope = list(getattr(p, "scope_names", None) or [])
+
     def fresh_name() -> str:
         for _ in range(50):
-            n = r.choice(names)
+            # now and then a field is called like a (root) namespace of this very set: one token stropped as a path component,
+            # as a namespace and as a member within one run
+            n = r.choice(scope) if scope and p.weird_names and r.chance(1, 7) else r.choice(names)
             if n.lower() not in used_names:
                 used_names.add(n.lower())
                 return n
@@ -324,6 +328,7 @@ def generate(seed_labels: typing.Tuple, profile: typing.Optional[Profile] = None
     # case-insensitively distinct
     seen_l = set()  # type: typing.Set[str]
     ds.roots = [x for x in roots if not (x.lower() in seen_l or seen_l.add(x.lower()))]  # type: ignore
+    p.scope_names = list(ds.roots)
     used = set()  # type: typing.Set[str]
     for ri, root in enumerate(ds.roots):
         ntypes = r.between(p.min_types, p.max_types)
@@ -338,6 +343,8 @@ def generate(seed_labels: typing.Tuple, profile: typing.Optional[Profile] = None
                 ns_pool.append(base + [comp, r.choice(NS_NAMES[:5])])
             else:
                 ns_pool.append(base + [comp])
+            if comp not in p.scope_names:
+                p.scope_names.append(comp)
         for ti in range(ntypes):
             t = GenType()
             t.root = root
